@@ -175,8 +175,10 @@ where
             self.nodes.insert((self.depth, start + i), leaf);
             self.cached_leaves_indices[start + i] = 1;
         }
-        self.update_hashes(start, leaves_len)?;
-        self.next_index = max(self.next_index, start + leaves_len);
+        if leaves_len != 0 {
+            self.update_hashes(start, leaves_len)?;
+            self.next_index = max(self.next_index, start + leaves_len);
+        }
         Ok(())
     }
 
